@@ -68,6 +68,7 @@ class Builder:
             self.rng.shuffle(self.free)
         self.tree = {'kind': 'dir', 'name': '', 'children': [], 'cluster': 0}
         self.dirs = {id(self.tree): {'slots': [], 'chain': None}}
+        self._pending_orphan = {}      # directory -> checksum of an orphaned long-name run planted last
         if g.fat_type == 'fat32':
             c = self._alloc(1)
             assert c == [2] or fragment
@@ -180,6 +181,12 @@ class Builder:
         """alias: (name8, ext3) bytes padded.  data: bytes for a file.  Returns the tree node."""
         name8, ext3 = alias
         name11 = name8 + ext3
+        stored11 = ((b'\x05' + name8[1:]) if lead05 else name8) + ext3
+        if not lfn and self._pending_orphan.get(id(parent)) == lfn_checksum(stored11):
+            # an "orphaned" run planted just before must stay orphaned: its (deliberately wrong) checksum happens to be
+            # this entry's, which would make the run this entry's long name by the rules -- separate them
+            self._put(parent, b'\xe5' + self.short_rec(b'SEPARATE', b'   ', 0x20, 0, 0)[1:])
+        self._pending_orphan.pop(id(parent), None)
         if lfn:
             for r in self.lfn_recs(name, name11):
                 self._put(parent, r)
@@ -226,6 +233,7 @@ class Builder:
         if kind == 'bad-checksum':
             for r in self.lfn_recs('orphan name that is long.dat', b'ORPHAN~1DAT', checksum=0x5a):
                 self._put(parent, r)
+            self._pending_orphan[id(parent)] = 0x5a
         elif kind == 'headless':      # run without its 0x40 start record
             for r in self.lfn_recs('headless orphan long name here.bin', b'HEADLE~1BIN')[1:]:
                 self._put(parent, r)
